@@ -545,3 +545,222 @@ pub fn load_corpus(max_file_len: usize) -> Vec<(String, Vec<u8>)> {
     out.sort_by(|a, b| a.0.cmp(&b.0));
     out
 }
+
+// ---------------------------------------------------------------------------
+// Scale workload: constructs whose length, count or depth sits at and around the sizes that
+// internal buffers, chunk searches and counters use (32 / 64 / 128 / 256 / 1024 / 8192).
+// The small-scope enumerations never get there.
+// ---------------------------------------------------------------------------
+
+/// the sizes tried (each also -1 and +1)
+pub const SCALE_SIZES: &[usize] = &[32, 64, 128, 256, 1024, 8192];
+/// piece sizes for buffered / async sources on scale documents
+pub const SCALE_PIECES: &[usize] = &[31, 32, 33, 64, 128, 1024, 8192];
+pub const SCALE_KINDS: usize = 16;
+
+fn fill(out: &mut Vec<u8>, n: usize, bits: &[&[u8]], r: &mut Rng) {
+    let start = out.len();
+    while out.len() - start < n {
+        let b = bits[r.below(bits.len())];
+        if out.len() - start + b.len() > n {
+            out.push(b'x');
+        } else {
+            out.extend_from_slice(b);
+        }
+    }
+}
+
+/// one scale document of kind `kind` (0..SCALE_KINDS) and size parameter `n`
+pub fn scale_doc(kind: usize, n: usize, r: &mut Rng) -> Vec<u8> {
+    let mut d = Vec::with_capacity(n * 3 + 64);
+    let name = |n: usize| -> Vec<u8> { (0..n).map(|i| b"abcdefghij"[i % 10]).collect() };
+    match kind {
+        // long element name
+        0 => {
+            let nm = name(n);
+            d.push(b'<');
+            d.extend_from_slice(&nm);
+            d.extend_from_slice(b" k=\"v\">t</");
+            d.extend_from_slice(&nm);
+            d.extend_from_slice(b"><");
+            d.extend_from_slice(&nm);
+            d.extend_from_slice(b"/>");
+        }
+        // long attribute value with '>' and the other quote inside, either quote kind
+        1 => {
+            let q = if r.bool() { b'"' } else { b'\'' };
+            let other: &[u8] = if q == b'"' { b"'" } else { b"\"" };
+            d.extend_from_slice(b"<a k=");
+            d.push(q);
+            fill(&mut d, n, &[b"v", b">", b"/>", b" ", other, b"=", b"xxxxxxxxxxxxxxxx", b"<"], r);
+            d.push(q);
+            d.extend_from_slice(b" z='1'>t</a>");
+        }
+        // value made of plain bytes with a single '>' near the end (whole pieces lie inside the value)
+        2 => {
+            d.extend_from_slice(b"<a k=\"");
+            d.extend(std::iter::repeat(b'v').take(n));
+            d.extend_from_slice(b">vv\" z=\"2\"/><b/>");
+        }
+        // long attribute name, repeated (duplicate) and as a near miss
+        3 => {
+            let nm = name(n);
+            d.extend_from_slice(b"<a ");
+            d.extend_from_slice(&nm);
+            d.extend_from_slice(b"=\"1\" b=\"2\" ");
+            d.extend_from_slice(&nm);
+            d.extend_from_slice(b"=\"3\" ");
+            d.extend_from_slice(&nm);
+            d.extend_from_slice(b"x=\"4\" c='5'/>");
+        }
+        // many attributes
+        4 => {
+            d.extend_from_slice(b"<a");
+            for i in 0..n.min(1100) {
+                d.extend_from_slice(format!(" a{}=\"{}\"", i, i % 7).as_bytes());
+            }
+            d.extend_from_slice(b" a0='dup'>t</a>");
+        }
+        // long text; whitespace runs of length n in front of text and in front of markup
+        5 => {
+            d.extend_from_slice(b"<a>");
+            d.extend(std::iter::repeat(b' ').take(n));
+            d.extend_from_slice(b"x");
+            fill(&mut d, n, &[b"t", b" ", b"&amp;", b">", b"]]>", b"\n"], r);
+            d.extend_from_slice(b"<b/>");
+            d.extend(std::iter::repeat(if r.bool() { b'\n' } else { b' ' }).take(n));
+            d.extend_from_slice(b"<c/>\r\n");
+            d.extend(std::iter::repeat(b'\t').take(n / 2));
+            d.extend_from_slice(b"</a>");
+            d.extend(std::iter::repeat(b' ').take(n / 3));
+        }
+        // long comment with lone hyphens and "->"
+        6 => {
+            d.extend_from_slice(b"<a><!--");
+            fill(&mut d, n, &[b"c", b" - ", b"->", b">", b"-x", b"cccccccccccccccccccccccccccccccc"], r);
+            d.extend_from_slice(b"x--><b/></a>");
+        }
+        // long CDATA with ']' and "]>"
+        7 => {
+            d.extend_from_slice(b"<a><![CDATA[");
+            fill(&mut d, n, &[b"d", b"]", b"]>", b">", b"]]", b"] ]>", b"dddddddddddddddddddddddddddddddd"], r);
+            d.extend_from_slice(b"x]]>t</a>");
+        }
+        // long PI and a declaration with long pseudo attributes
+        8 => {
+            d.extend_from_slice(b"<?xml version=\"1.0\" x=\"");
+            d.extend(std::iter::repeat(b'y').take(n / 2));
+            d.extend_from_slice(b"\"?><?pi ");
+            fill(&mut d, n, &[b"p", b"?", b">", b"? >", b"pppppppppppppppppppppppppppppppp"], r);
+            d.extend_from_slice(b"?><a/>");
+        }
+        // deep nesting, properly closed, alternating names
+        9 => {
+            let names: [&[u8]; 3] = [b"a", b"ab", b"b"];
+            for i in 0..n {
+                d.push(b'<');
+                d.extend_from_slice(names[i % 3]);
+                d.push(b'>');
+            }
+            d.extend_from_slice(b"t");
+            for i in (0..n).rev() {
+                d.extend_from_slice(b"</");
+                d.extend_from_slice(names[i % 3]);
+                d.push(b'>');
+            }
+        }
+        // deep nesting with one wrong end tag deep inside and one end tag too many
+        10 => {
+            for i in 0..n {
+                d.extend_from_slice(if i % 2 == 0 { b"<a>" } else { b"<b>" });
+            }
+            let wrong = r.below(n.max(1));
+            for i in (0..n).rev() {
+                if i == wrong {
+                    d.extend_from_slice(b"</x>");
+                } else {
+                    d.extend_from_slice(if i % 2 == 0 { b"</a>" } else { b"</b>" });
+                }
+            }
+            d.extend_from_slice(b"</a><c/>");
+        }
+        // many siblings, empty and not
+        11 => {
+            d.extend_from_slice(b"<r>");
+            for i in 0..n.min(3000) {
+                match i % 3 {
+                    0 => d.extend_from_slice(b"<i/>"),
+                    1 => d.extend_from_slice(b"<i>t</i>"),
+                    _ => d.extend_from_slice(b"<j k='v'/>\n"),
+                }
+            }
+            d.extend_from_slice(b"</r>");
+        }
+        // DOCTYPE whose internal subset has n more '<' than '>' (quoted '<'), so it stays open
+        12 => {
+            d.extend_from_slice(b"<!DOCTYPE d [");
+            for i in 0..n.min(1100) {
+                d.extend_from_slice(format!("<!ENTITY e{} \"<\">", i).as_bytes());
+            }
+            d.extend_from_slice(b"]><d/>");
+        }
+        // DOCTYPE with n nested '<' that are all closed again
+        13 => {
+            d.extend_from_slice(b"<!DOCTYPE d [");
+            let k = n.min(1100);
+            d.extend(std::iter::repeat(b'<').take(k));
+            d.extend_from_slice(b"x");
+            d.extend(std::iter::repeat(b'>').take(k));
+            d.extend_from_slice(b"]><d>t</d>");
+        }
+        // long end tag with trailing whitespace, long text before it
+        14 => {
+            let nm = name(n);
+            d.push(b'<');
+            d.extend_from_slice(&nm);
+            d.push(b'>');
+            fill(&mut d, n, &[b"t", b" "], r);
+            d.extend_from_slice(b"</");
+            d.extend_from_slice(&nm);
+            d.extend(std::iter::repeat(b' ').take(n / 4));
+            d.extend_from_slice(b"><z/>");
+        }
+        // mixed document: every construct of moderate length in a row, repeated
+        _ => {
+            d.extend_from_slice(b"<r>");
+            let mut total = 0;
+            while total < n {
+                let k = 1 + r.below(40);
+                d.extend_from_slice(b"<e k=\"");
+                d.extend(std::iter::repeat(b'v').take(k));
+                d.extend_from_slice(b">\">");
+                d.extend(std::iter::repeat(b' ').take(k % 5));
+                d.extend_from_slice(b"t<!--c-c--><![CDATA[]]]><?p ??></e>\n  ");
+                total += k + 40;
+            }
+            d.extend_from_slice(b"</r>");
+        }
+    }
+    d
+}
+
+/// the scale documents owned by one shard: every kind at every size and its two neighbours
+pub fn scale_docs(shard: u32, nshards: u32, seed: u64, max_size: usize) -> Vec<(usize, usize, Vec<u8>)> {
+    let mut out = Vec::new();
+    let mut idx = 0u32;
+    for kind in 0..SCALE_KINDS {
+        for s in SCALE_SIZES {
+            if *s > max_size {
+                continue;
+            }
+            for n in [s - 1, *s, s + 1] {
+                if idx % nshards == shard {
+                    let mut r = Rng::new(seed ^ ((kind as u64) << 32) ^ n as u64);
+                    out.push((kind, n, scale_doc(kind, n, &mut r)));
+                }
+                idx += 1;
+            }
+        }
+    }
+    out
+}
